@@ -34,7 +34,7 @@ class Fn:
 
     def __init__(self, cname, tu, name, flt=None, select=None, kinds=('CXXMethodDecl', 'FunctionDecl', 'CXXConstructorDecl'),
                  self_struct=None, types=(), calls=(), members=(), hooks=(), stmt_hooks=(), aggregates=(),
-                 ret=None, lambda_index=None, extra_params=(), post=None, uf_float=True):
+                 ret=None, lambda_index=None, extra_params=(), post=None, uf_float=True, captures=False):
         self.uf_float = uf_float
         self.cname = cname
         self.tu = tu
@@ -49,6 +49,7 @@ class Fn:
         self.ret = ret
         self.lambda_index = lambda_index
         self.extra_params = extra_params
+        self.captures = captures  # lambda: derive the extra parameters from the capture list (by-reference -> pointer)
         self.post = post  # optional text transformation of the emitted C (must be mechanical; recorded)
 
     def emit(self):
@@ -63,9 +64,29 @@ class Fn:
             if not ops:
                 raise ExtractionError(f'{self.cname}: lambda without operator()')
             d = ops[0]
+        elif self.captures:
+            raise ExtractionError(f'{self.cname}: captures=True without lambda_index')
         P = cxx2c.Printer(self.cname, self.types, self.calls, self.members, self.hooks, self.self_struct,
                           self.aggregates, self.stmt_hooks, self.uf_float)
-        text = P.function(d, self.ret, self.extra_params)
+        extra = list(self.extra_params)
+        if self.captures:
+            # captured variables become parameters: by-reference captures are pointers (uses print as (*name), so writes
+            # through them are visible to the caller), by-copy captures are values; `this` is the self parameter
+            for c in astload.lambda_captures(lam):
+                if c['this']:
+                    if not self.self_struct:
+                        raise ExtractionError(f'{self.cname}: lambda captures this but no self_struct is given')
+                    continue
+                vt = c['var_type'].get('qualType', '').rstrip()
+                ct = P.ctype(c['var_type'])
+                if c['byref']:
+                    if not vt.endswith('&'):
+                        ct += '*'
+                        P.byref_captures.add(c['id'])
+                elif vt.endswith('&'):
+                    raise ExtractionError(f'{self.cname}: by-copy capture of the reference {c["name"]} is not supported')
+                extra.append(f'{ct} {c["name"]}')
+        text = P.function(d, self.ret, extra)
         if self.post:
             text = self.post(text)
         self.printer = P
